@@ -52,6 +52,7 @@ def one(seed, i, tier, res):
     rng = random.Random("%s:C04:%d" % (seed, i))
     g = gen.ProgGen(rng, max_depth=rng.choice([3, 5, 8]), max_nodes=rng.choice([20, 45]), value_depth=0, act_styles=STYLES,
                     allow_remote=rng.random() < 0.3, allow_tb=False, allow_reenter=True, fail_p=rng.choice([0.2, 0.5]),
+                    early_finish_p=0.15, extra_styles=("pre_created", "ctx_finish_inside"),
                     msg_styles=["log_message", "action.log", "Message.log"])
     prog = g.program()
     tape = Tape()
